@@ -45,7 +45,7 @@ KERNELS = {
 NAT_KERNELS = {"_check_regular_chunks", "to_chunksize"}
 
 GEN_HEADER = r"""
-From CubedV Require Import Model.Util Model.Memory Model.Rechunk Model.Regular Model.Dag Model.FuseGuard Model.Admission Model.Resume Model.Events Model.SpecCfg Model.Geometry Model.StoreRegion Model.StoreGuard Proofs.StoreGuardProofs Proofs.GeometryProofs Proofs.SpecCfgProofs Proofs.FuseGuardProofs Proofs.AdmissionProofs Proofs.ResumeProofs Proofs.EventsProofs.
+From CubedV Require Import Model.Util Model.Memory Model.Rechunk Model.Regular Model.Dag Model.FuseGuard Model.Admission Model.Resume Model.Events Model.SpecCfg Model.Geometry Model.StoreRegion Model.StoreGuard Proofs.StoreGuardProofs Proofs.GeometryProofs Proofs.SpecCfgProofs Proofs.MemoryProofs Proofs.FuseGuardProofs Proofs.AdmissionProofs Proofs.ResumeProofs Proofs.EventsProofs.
 From Gen Require Import Gen.
 Local Open Scope Z_scope.
 
@@ -156,7 +156,7 @@ ADMISSION_KERNELS = ["Plan._find_ops_exceeding_memory", "FinalizedPlan.validate"
                      "skip_node", "visit_nodes", "visit_node_generations",
                      "Spec.__eq__", "check_array_specs",
                      "_cumsum", "get_item", "ChunkKeys.__iter__", "general_blockwise.num_tasks",
-                     "_store_array.region_guards"]
+                     "_store_array.region_guards", "general_blockwise.projected_mem"]
 
 EQUIV.update({
     "is_fuse_candidate": r"""
@@ -302,6 +302,17 @@ Corollary source_region_guards_are_model_guards : forall a : raxis,
   gen_region_chunks_mismatch (Z.of_nat (sn a)) (Z.of_nat (StoreRegion.sc a)) (Z.of_nat (StoreRegion.tc a)) (Z.of_nat (nblocks (sn a) (StoreRegion.sc a))) = negb (chunks_ok a).
 Proof. intros. rewrite gen_region_misaligned_equiv, gen_region_chunks_mismatch_equiv. split; [apply misalignedZ_view|apply chunks_mismatchZ_view]. Qed.
 """,
+    "general_blockwise.projected_mem": r"""
+Theorem gen_general_blockwise_projected_mem_equiv : forall reserved extra rc wc ins outs,
+  gen_general_blockwise_projected_mem reserved extra rc wc ins outs = blockwise_projected reserved extra rc wc ins outs.
+Proof. intros. unfold gen_general_blockwise_projected_mem, blockwise_projected. rewrite gen_calculate_projected_mem_equiv. reflexivity. Qed.
+(* what the source charges an ordinary operation: reserved + every input chunk with its read copies + the declared extra + the largest
+   chunk it WRITES (array_memory(dtype, write chunk size)) with its write copies *)
+Corollary source_blockwise_projected_closed : forall reserved extra rc wc ins outs,
+  gen_general_blockwise_projected_mem reserved extra rc wc ins outs
+  = reserved + sumz (map (fun i => i * (rc + 1)) ins) + extra + fold_left Z.max outs 0 * (wc + 1).
+Proof. intros. rewrite gen_general_blockwise_projected_mem_equiv. unfold blockwise_projected. apply calc_projected_closed. Qed.
+""",
     "skip_node": r"""
 Theorem gen_skip_node_spec : forall hp c, gen_skip_node hp c = negb hp || c.
 Proof. intros [|] [|]; reflexivity. Qed.
@@ -327,7 +338,7 @@ Corollary source_par_barrier : forall nodes edges gens is_op skip (ntasks : nat 
 Proof. intros until inter. rewrite gen_visit_node_generations_equiv. apply par_barrier. Qed.
 """,
 })
-DEPS.update({"check_array_specs": ["Spec.__eq__"], "get_item": ["_cumsum"], "general_blockwise.num_tasks": ["ChunkKeys.__iter__"]})
+DEPS.update({"general_blockwise.projected_mem": ["calculate_projected_mem"], "check_array_specs": ["Spec.__eq__"], "get_item": ["_cumsum"], "general_blockwise.num_tasks": ["ChunkKeys.__iter__"]})
 DEPS.update({"FinalizedPlan.validate": ["Plan._find_ops_exceeding_memory"], "admission.wiring": [], "resume.wiring": []})
 DEPS.update({"can_fuse_primitive_ops": ["is_fuse_candidate"],
              "can_fuse_multiple_primitive_ops": ["MemoryModeller.allocate", "MemoryModeller.free", "peak_projected_mem", "is_fuse_candidate"],
@@ -729,6 +740,32 @@ def translate_admission(name, repo):
         return ("Definition gen_get_item (chunks : list (list nat)) (idx : list nat) : list (nat * nat) :=\n"
                 "  let starts := map (fun c => gen__cumsum c true) chunks in\n"
                 "  let loc := map2 (fun i start => (nth i start 0, nth (i + 1) start 0))%nat idx starts in\n  loc.\n")
+    if name == "general_blockwise.projected_mem":
+        btree = ast.parse((Path(repo) / "cubed/primitive/blockwise.py").read_text())
+        fn = next((n for n in btree.body if isinstance(n, ast.FunctionDef) and n.name == "general_blockwise"), None)
+        if fn is None:
+            raise TranslationError("general_blockwise not found")
+        allst = [U(n) for n in ast.walk(fn) if isinstance(n, ast.stmt)]
+        need = ["output_chunk_memory = 0", "chunksize = to_chunksize(chunks_normal)",
+                "output_chunk_memory = max(output_chunk_memory, array_memory(dtypes[i], chunksize))",
+                "buffer_copies = buffer_copies or BufferCopies(read=1, write=1)",
+                "projected_mem = calculate_projected_mem(reserved_mem=reserved_mem, inputs=[array_memory(array.dtype, largest_chunk(array.chunks)) for array in arrays], "
+                "operation=extra_projected_mem, output=output_chunk_memory, buffer_copies=buffer_copies)"]
+        for st in need:
+            if allst.count(st) != 1:
+                raise TranslationError(f"general_blockwise: expected exactly one statement `{st[:70]}`")
+        for v in ("output_chunk_memory", "projected_mem", "chunksize"):
+            n_st = sum(1 for n in ast.walk(fn) if isinstance(n, ast.Name) and isinstance(n.ctx, ast.Store) and n.id == v)
+            if n_st != (2 if v == "output_chunk_memory" else 1):
+                raise TranslationError(f"general_blockwise: {v} is assigned elsewhere too")
+        ret = fn.body[-1]
+        kws = {k.arg: U(k.value) for k in ret.value.keywords} if isinstance(ret, ast.Return) and isinstance(ret.value, ast.Call) and U(ret.value.func) == "PrimitiveOperation" else {}
+        if kws.get("projected_mem") != "projected_mem" or kws.get("write_chunks") != "chunksize" or kws.get("allowed_mem") != "allowed_mem" or kws.get("reserved_mem") != "reserved_mem":
+            raise TranslationError("general_blockwise: PrimitiveOperation(projected_mem=projected_mem, allowed_mem=allowed_mem, reserved_mem=reserved_mem, write_chunks=chunksize)")
+        # ins = array_memory(dtype, largest chunk) of every input; outs = array_memory(dtype_i, write chunk size) of every output
+        return ("Definition gen_general_blockwise_projected_mem (reserved_mem extra_projected_mem rc wc : Z) (ins outs : list Z) : Z :=\n"
+                "  (let output_chunk_memory := (0) in\n   let output_chunk_memory := fold_left (fun output_chunk_memory o => Z.max output_chunk_memory o) outs output_chunk_memory in\n"
+                "   gen_calculate_projected_mem reserved_mem ins extra_projected_mem output_chunk_memory rc wc)%Z.\n")
     if name in ("ChunkKeys.__iter__", "general_blockwise.num_tasks"):
         btree = ast.parse((Path(repo) / "cubed/primitive/blockwise.py").read_text())
         if name == "ChunkKeys.__iter__":
